@@ -202,7 +202,15 @@ var wrongValues = func() []wrongVal {
 	}
 }()
 
+// vSelfPtr: a pointer type that points to itself (p = &p): following it never reaches a value
+type vSelfPtr *vSelfPtr
+
 func wrongByName(n string) any {
+	if n == "selfptrtype" {
+		var p vSelfPtr
+		p = &p
+		return p
+	}
 	for _, w := range wrongValues {
 		if w.Name == n {
 			return w.V
